@@ -63,6 +63,16 @@ Theorem C14_single_main : forall sg r0 st0 tr s,
 Proof. exact single_main. Qed.
 Print Assumptions C14_single_main.
 
+(* the protocol never blocks by itself: in every reachable state in which some caller
+   is inside updateReferrersIndex some event is enabled (a caller can assign, a waiting
+   member can take the main status, the main caller's next lock region / exchange can
+   happen with either outcome, a returned caller can release the Pool entry) *)
+Theorem C14_no_deadlock : forall sg r0 st0 tr s,
+  run sg (init r0 st0) tr = Some s -> (exists t, holding (pcs s t) = true) ->
+  exists e s', step sg s e = Some s'.
+Proof. exact no_deadlock. Qed.
+Print Assumptions C14_no_deadlock.
+
 (* batches linearise: for every trace (interleaving, pre-existing index r0 with
    duplicates / empty entries, injected failures) ending in a quiescent state, the
    calls that returned nil or a referrers-index-delete error — and only those — took
